@@ -331,6 +331,11 @@ def explore(uni, order=None, cap=None):
         if cap is not None and execs >= cap:
             capped = True
             break
+        if len(errors) >= 50:
+            # fifty counterexamples are on the table: a broken solver can make the reachable space very large, and
+            # nothing is gained by finishing it (the run is reported as capped, never as exhaustive)
+            capped = True
+            break
         ex = Execution(uni, script, seen, schedule_order=order)
         out = ex.run()
         execs += 1
